@@ -433,6 +433,11 @@ func Generate(t *rapid.T, opt Options) *Model {
 				o.Fields = append(o.Fields, g.valueField(o, used))
 			}
 		}
+		if !o.IsNode && len(o.Implements) == 0 && g.chance(20, "valueid") {
+			// a plain type may have a field called id without being a Node (the gateway treats the name specially)
+			o.Fields = append(o.Fields, &Field{Name: "id", Type: TypeRef{Name: "ID", Kind: KScalar}, Owner: -1})
+			m.Labels["valueTypeWithId"] = true
+		}
 	}
 	// roots
 	nQ := 1 + g.pick(4, "nquery")
